@@ -77,6 +77,30 @@ CHECKS = {
    note="Generator ground truth for the canonical statement space (DESIGN 4.3); pinned 'Missing reference in file' phrase; known finding D13 listed in KNOWN_FINDINGS.txt.",
    tech="runtime monitoring: generated workloads + ground-truth oracle over check report and edit decomposition"),
 }
+# workloads added after the seeded-change rounds 4-7 (DESIGN 13.9-13.11), appended to the level text of each check
+ADDED = {
+ "C01": "Also: ambient state (permission bits, mtimes, stale Breadlog.lock.tmp, a lock in the directory above, editor droppings), files spelled with layout between macro name and `!` (when the tree under test recognises them on a probe), modifier-carrying ref keys, and runs in which one file fails (errno at every scratch-file operation) while others are rewritten.",
+ "C02": "Also: short writes, histories starting within 14 IDs of u32::MAX, a symlinked or write-protected lock, timestamp changes (configuration newer than the lock), EPIPE on a log line (panic that unwinds).",
+ "C03": "Also: 4-9 MiB files, copied runs of exactly k x 2^n bytes, references not followed by a space, read-side faults (read fails / short / short then fails), statements nested in another statement's value.",
+ "C04": "Also: eight command-line spellings of check mode (repeated flag, directory given to -c), stale lock scratch copies, a valid lock behind the code, old scratch files in TMPDIR, a missing configuration file.",
+ "C05": "Also: totals of exactly 256/512/1024 missing references, several statements per source line, lines and columns beyond 16 bits, redundant configuration lists, environment variables of developer shells (RUST_LOG, NO_COLOR, TERM, LANG, TZ), write-protected sources.",
+ "C06": "Also: argument forms of newer log releases, 120-2500 files under RLIMIT_NOFILE=40, fully referenced trees with absent/torn lock, symlinked sources, real-world first lines (@generated, DO NOT EDIT ...), ambient state.",
+ "C07": "Also: partial write failures, two-run histories over one TMPDIR, read-side faults, a stalled last write (killed after its rename / failing after the stall), EPIPE on every log line, a stop request followed by a kill at every later operation, two overlapping runs sharing TMPDIR, sibling files with scratch-like names.",
+ "C08": "Also: concurrent save of the file in hand, every operation on a scratch file (fchmod, ftruncate ...), read-only sources, unusable references, TMPDIR set but empty, faults on lock operations, fault followed by a stop signal.",
+ "C09": "Also: general log!(Level, ..) statements with `log` configured, layout before `!`, CRLF programs, 30% of the edit runs under I/O perturbation (all reads and writes short; one partial write failure).",
+ "C10": "Also: files spelled with layout before `!` throughout, statements nested in another macro's arguments, literals ending in an escaped backslash, character-literal and inner-string-literal values, a string literal right after the statement.",
+ "C11": "Also: non-ASCII identifier decoys, multi-paragraph block comments in ~300 KB files, partial forms of multi-segment module paths, comments after lifetimes / loop labels, non-literal forms with key-values.",
+ "C12": "Also: whitespace-class substitutions of the token's space, every literal two or three times in one file, multi-line literals, no-kvp directive in string mode.",
+ "C13": "Also: expressions that begin with digits, out-of-range literals must not be read as another number, unusable references must be reported by --check also in files where nothing is missing, character-literal values.",
+ "C14": "Also: statement spelled over two lines, attribute and assorted code lines in between, Unicode padding, 40 blank lines / 300-space lines, directive trailing code on the line above, twin files (same skeleton, directive words spoilt) incl. one-statement pairs.",
+ "C15": "Also: in-scope files 16-120 levels deep, permission bits, configuration reached through a symbolic link, pipes and sockets named like sources, a mount point inside the tree (private mount namespace), a missing source directory with look-alikes where the command runs, dotted directory names, non-UTF-8 names (open known finding D21).",
+ "C16": "Also: stale lock scratch copies, symlinked / write-protected / non-text locks, ~35 invalid configuration shapes, every error case also run from a directory full of look-alikes.",
+ "C17": "Also: every odd construct repeated 25-400 times, 150 000 nesting levels, empty comments above invocations, coordinates beyond 16 bits, OS-level open errors, special files named like sources.",
+ "C18": "Also: double signals incl. stdin on a terminal, unreadable files in complete / incomplete trees, a 300 KB source, a failing first file plus a stop request while the complete rest is examined.",
+}
+for _k, _v in ADDED.items():
+    CHECKS[_k]["text"] = CHECKS[_k]["text"] + " " + _v
+
 def main():
     checks = []
     for pid in ALL:
